@@ -17,7 +17,9 @@ func init() {
 		Explanation: "(1) kgo.incrementSequence is put in affine piecewise normal form: the guard must be equivalent to s+n > MaxInt32, the wrapping arm must equal s+n-2^31 and the other arm s+n; " +
 			"(2) every write to recBuf.seq / recBuf.batch0Seq / recBatch-level sequence goes through incrementSequence, a copy of the sibling field, or the constant 0 (no raw + on sequence fields); " +
 			"(3) in kfake's pidwindow.pushAndValidate every `%` applied to firstSeq+numRecs has the constant divisor 2^31 and the sum is computed in 64 bits; both computations of the next sequence are the same expression; a mismatch with nextSeq returns ok=false before any state is stored, a duplicate returns the stored offset; " +
-			"(4) in handleProduce !seqOk maps to OUT_OF_ORDER_SEQUENCE_NUMBER, pushBatch is reached only when errCode==0 && !dup, and the duplicate arm answers with the offset returned by pushAndValidate.",
+			"(4) in handleProduce !seqOk maps to OUT_OF_ORDER_SEQUENCE_NUMBER, pushBatch is reached only when errCode==0 && !dup, and the duplicate arm answers with the offset returned by pushAndValidate; " +
+			"(5) sequence values are compared only for equality: no sequence field of the client (recBuf.seq, batch0Seq, seqRecBatch.seq) or of kfake's window (pidwindow.nextSeq, pidEntry.firstSeq/nextSeq), nor a local copied from one, is an operand of < <= > >= (the later sequence is numerically smaller across the wrap), and kfake never compares them with a constant (0 is the legitimate next sequence after a batch ending on the wrap, not an empty marker); " +
+			"(6) kfake saves every producer window on shutdown unconditionally and restores every field and entry.",
 		NotDecided: "run-time behaviour of the window beyond these shapes (eviction after 5 batches), and epoch handling.",
 		Run:        runC29,
 	})
@@ -113,10 +115,13 @@ func runC29(c *Ctx) {
 	m := c.Load("")
 	if m != nil {
 		c29client(c, m)
+		c29seqComparisons(c, m, "kgo", [][2]string{{"recBuf", "seq"}, {"recBuf", "batch0Seq"}, {"seqRecBatch", "seq"}}, false)
 	}
 	k := c.Load("pkg/kfake")
 	if k != nil {
 		c29kfake(c, k)
+		c29seqComparisons(c, k, "kfake", [][2]string{{"pidwindow", "nextSeq"}, {"pidEntry", "firstSeq"}, {"pidEntry", "nextSeq"}}, true)
+		c29saveAll(c, k)
 	}
 }
 
